@@ -29,7 +29,8 @@ COUNT_EXCLUDED = ("tuple", "list", "array")
 # the option value as a caller would get it from a config file or the command line: an equal
 # string built at run time (a source literal is interned and 'is'-identical to the library's own)
 DESCEND = "_".join(("descend", "args"))
-assert DESCEND == "descend_args" and DESCEND is not "descend_args"   # noqa: F632
+_LITERAL = "descend_args"
+assert DESCEND == _LITERAL and id(DESCEND) != id(_LITERAL)
 
 
 FLAGS = [
